@@ -84,11 +84,41 @@ def _reg_type(name):
     return getattr(collab, name)
 
 
+def make_nested_duck(registry_owner):
+    """a structural ("duck") type whose isinstance hook itself calls glom, through the registry it is
+    registered in: a handler look-up that reaches it re-enters glom in the middle of the look-up"""
+    glom_fn = registry_owner.glom
+
+    class _Meta(type):
+        busy = False
+
+        def __instancecheck__(cls, obj):
+            if _Meta.busy:
+                return False
+            _Meta.busy = True
+            try:
+                # (what comes back depends on the registrations of the case and is ignored: the hook
+                # never matches and never touches *obj*, so look-ups go on exactly as without it)
+                glom_fn({'probe': 1}, 'probe')
+            except Exception:
+                pass
+            finally:
+                _Meta.busy = False
+            return False
+
+    class NestedDuck(metaclass=_Meta):
+        pass
+    return NestedDuck
+
+
 def apply_reg(registry_owner, reg):
     """reg = {'type': name, 'op': op, 'h': handler name, 'exact': bool}"""
     kw = {reg['op']: _handler(reg['h'])}
     if reg.get('exact'):
         kw['exact'] = True
+    if reg['type'] == 'NestedDuck':
+        registry_owner.register(make_nested_duck(registry_owner), **kw)
+        return
     registry_owner.register(_reg_type(reg['type']), **kw)
 
 
